@@ -378,7 +378,9 @@ class Array(metaclass=MetaArray):
                     dshape = []  # index of dynamic shapes
                     for ndim in cls._shape:
                         if ndim is None:
-                            shape.append(args[len(dshape)])
+                            # python integers: sizes and strides derived from
+                            # a small numpy integer must not wrap
+                            shape.append(int(args[len(dshape)]))
                             dshape.append(len(shape))
                         else:
                             shape.append(ndim)
